@@ -196,8 +196,8 @@ package regattaserver
 //@   ensures err == nil ==> resp != nil && fresh(resp)
 //@   modifies writer.sdata, writer.slen, writer.nmsg, writer.msg
 //@ func (*SnapshotServer).Stream$1
-//@   requires *sf != nil
-//@   modifies nothing
+//@   requires *sf != nil && (*sf).w != nil && (*sf).File != nil
+//@   modifies (*sf).w.flushed, (*sf).w.busy
 
 // Stream: whatever the table wrote, the message written next - and last, before the file is shipped -
 // is a DUMMY command whose leader index is the index the table's snapshot answered with.
@@ -382,11 +382,11 @@ package regattaserver
 //@   assumed
 //@   modifies nothing
 //@ func (*BackupServer).Backup$1
-//@   requires *sf != nil
-//@   modifies nothing
+//@   requires *sf != nil && (*sf).w != nil && (*sf).File != nil
+//@   modifies (*sf).w.flushed, (*sf).w.busy
 //@ func (*BackupServer).Restore$1
-//@   requires *sf != nil
-//@   modifies nothing
+//@   requires *sf != nil && (*sf).w != nil && (*sf).File != nil
+//@   modifies (*sf).w.flushed, (*sf).w.busy
 //@ func (*BackupServer).Backup
 //@   maypanic
 //@   requires m != nil && m.Tables != nil && req != nil && srv != nil
